@@ -345,13 +345,56 @@ static void generate_lvalue_list (parse_node_t * expr) {
  * for the code generator.
  * @param line The new source line number.
  */
+/* The code of global variable initialisers is generated into a block of its own and
+ * appended to the program at the very end (i_generate___INIT): its line runs cannot be
+ * written while it is generated.  Where it changes line is remembered here and turned into
+ * line table entries when the block is appended - without them an error in an initialiser
+ * was reported at line 0 or at the last line of the last function. */
+static struct init_line_mark { size_t offset; int line; } *init_line_marks = 0;
+static int num_init_line_marks = 0, max_init_line_marks = 0;
+
+static void add_line_run (ptrdiff_t sz, int line) {
+  unsigned char *p;
+  short s = (short) line;
+
+  while (sz > 255)
+    {
+      p = (unsigned char *) allocate_in_mem_block (A_LINENUMBERS, 3);
+      *p++ = 255;
+      STORE_SHORT (p, s);
+      sz -= 255;
+    }
+  if (sz > 0)
+    {
+      p = (unsigned char *) allocate_in_mem_block (A_LINENUMBERS, 3);
+      *p++ = (unsigned char) sz;
+      STORE_SHORT (p, s);
+    }
+}
+
 static void switch_to_line (int line) {
 
   ptrdiff_t sz = CURRENT_PROGRAM_SIZE - last_size_generated;
   short s;
   unsigned char *p;
 
-  /* should be fixed later */
+  if (current_block == A_INITIALIZER)
+    {
+      if (line > 0 && (!num_init_line_marks || init_line_marks[num_init_line_marks - 1].line != line))
+        {
+          if (num_init_line_marks == max_init_line_marks)
+            {
+              max_init_line_marks = max_init_line_marks ? max_init_line_marks * 2 : 32;
+              init_line_marks = init_line_marks
+                ? RESIZE (init_line_marks, max_init_line_marks, struct init_line_mark, TAG_COMPILER, "switch_to_line")
+                : CALLOCATE (max_init_line_marks, struct init_line_mark, TAG_COMPILER, "switch_to_line");
+            }
+          init_line_marks[num_init_line_marks].offset = (size_t) CURRENT_PROGRAM_SIZE;
+          init_line_marks[num_init_line_marks].line = line;
+          num_init_line_marks++;
+        }
+      return;
+    }
   if (current_block != A_PROGRAM)
     return;
 
@@ -1020,9 +1063,33 @@ i_generate_inherited_init_call (int index, int f)
 void
 i_generate___INIT ()
 {
+  size_t init_size = mem_block[A_INITIALIZER].current_size;
+  int i;
+
+  if (num_init_line_marks)
+    switch_to_line (init_line_marks[0].line);	/* closes the last run of the program proper */
   add_to_mem_block (A_PROGRAM, (char *) mem_block[A_INITIALIZER].block,
                     mem_block[A_INITIALIZER].current_size);
   prog_code = mem_block[A_PROGRAM].block + mem_block[A_PROGRAM].current_size;
+  if (num_init_line_marks)
+    {
+      /* code in front of the first mark (there is none in practice) goes with the first line */
+      size_t from = 0;
+
+      for (i = 0; i < num_init_line_marks; i++)
+        {
+          size_t to = (i + 1 < num_init_line_marks) ? init_line_marks[i + 1].offset : init_size;
+
+          if (to > from)
+            {
+              add_line_run ((ptrdiff_t) (to - from), init_line_marks[i].line);
+              last_size_generated += to - from;
+              from = to;
+            }
+        }
+      line_being_generated = init_line_marks[num_init_line_marks - 1].line;
+      num_init_line_marks = 0;
+    }
 }
 
 void
@@ -1120,6 +1187,7 @@ i_initialize_parser ()
 {
   foreach_depth = 0;
   generate_depth = 0;   /* an error may have left the generator from the middle of a tree */
+  num_init_line_marks = 0;
   branch_list[CJ_BREAK] = 0;
   branch_list[CJ_BREAK_SWITCH] = 0;
   branch_list[CJ_CONTINUE] = 0;
